@@ -10,15 +10,19 @@ translator; (2) every recorded leg of every traced run replayed in the Lean acti
 effect footprints) evaluated on every recorded commit.
 Oracle: `runs.oracle_c09` (the property statement on recorded runs) on every trace; for a wiring whose obligation is broken
 additionally on 3–6 more runs of that configuration (more seeds, more particles, larger leg cap)."""
-from harness import runs, runcommon, actcorr, translate
+from harness import runs, runcommon, actcorr, translate, fpcorr
 
 ID = "C09"
 NEEDS_GEN = True
-THEOREM_MODULES = ["JF.Props.C09", "JF.Gen.WiringsSound"]
+THEOREM_MODULES = ["JF.Props.C09", "JF.Props.Footprints", "JF.Gen.WiringsSound"]
 COMPONENTS = ["act"]
 ASSUMPTIONS = [
-    "footprint tables (JF/Model/Wiring.lean: `affects`, `reads`) are hypotheses of the link theorem (`FootprintsSound`); they are "
-    "tied to the code by the run-level evaluation of StepOK / declared effects on every recorded commit, not proved against handler models",
+    "footprint tables (JF/Model/Wiring.lean: `affects`, `reads`) are hypotheses of the link theorem (`FootprintsSound`); for point-mass "
+    "systems with one cell-occupancy system (the coulomb_atoms family) they are PROVED sound against the kinematic chain machine, the "
+    "occupancy update and the cell taggers (JF/Props/Footprints.lean: footprintsSound_concrete, fresh_concrete; premise: a sampling / "
+    "dumping / end-of-run commit finds the active unit in its recorded cell = C11's history premise, measured on every observed commit "
+    "by harness/fpcorr.py); for composite-object configurations they remain tied to the code only by the run-level evaluation of "
+    "StepOK / declared effects on every recorded commit",
     "one independent active chain (C07): the count of a mode-switch tagger (ActiveRootUnitInStateTagger) does not depend on which "
     "composite object is active",
     "distinct cell-occupancy systems track distinct tree levels: a cell-boundary event of one system does not change the active cell of another",
@@ -33,7 +37,8 @@ TRUSTED = ["harness/runtrace.py (observation by wrapping bound methods of the me
 WHICH = "C09"
 
 
-def run(ctx, which=WHICH, oracle=None):
+def run(ctx, which=WHICH, oracle=None, per_trace=None):
+    """`per_trace(ctx, tr, w, cap)`: optional extra replay of every usable trace (used by C08 for the composed mediator model)"""
     oracle = oracle or runs.oracle_c09
     ctx.rule = ("real runs: 19 shipped .ini (shortened end time) + generated variants (particle number, grid, pool sizes, chain time, "
                 "sampling interval, scheduler), seeded; a case = one leg (get_event_handlers_to_run + get_trashable_events); distinct "
@@ -43,6 +48,9 @@ def run(ctx, which=WHICH, oracle=None):
         ctx.notes.append({"unsound_wirings": broken})
     actcorr.unit_level(ctx, ctx.n(1500, 20000))
     jobs = runcommon.fix_pools(runcommon.job_list(ctx), ctx.root)
+    if which == "C09":
+        # coulomb_atoms cell runs that also record the occupancy at every leg (premise of JF.Props.Footprints, harness/fpcorr.py)
+        jobs = jobs + runcommon.fix_pools(fpcorr.occupancy_jobs(ctx), ctx.root)
     trs = runs.run_jobs(ctx.root, jobs)
     try:
         tree = translate.Tree(ctx.root)
@@ -81,6 +89,8 @@ def run(ctx, which=WHICH, oracle=None):
             continue
         actcorr.check_translation(ctx, tr, w)
         fp_reply, sound = actcorr.replay(ctx, tr, w, cap)
+        if per_trace is not None:
+            per_trace(ctx, tr, w, cap)
         if not sound.startswith("ok"):
             # a harness-generated variant of a broken wiring (or a generated wiring that is itself unsound)
             ctx.count("variant-wiring-unsound")
@@ -92,6 +102,13 @@ def run(ctx, which=WHICH, oracle=None):
             ctx.disagree("act.protocol", {"ini": meta["ini"], "reply": fp_reply[:300]}, "footprint table", repr(e))
             continue
         actcorr.check_steps(ctx, tr, w, fp, which)
+        if which == "C09":
+            # the concrete world of JF.Props.Footprints: every recorded commit is an instance of the transition relation the
+            # footprint tables were PROVED sound for (event-kind map, consistency of the occupancy, stays-in-recorded-cell premise)
+            try:
+                fpcorr.check_trace(ctx, tr, w)
+            except Exception as e:
+                ctx.disagree("fp.check-trace", {"ini": meta["ini"], "job": tr.get("job")}, "evaluated", repr(e))
         for leg in tr["legs"][:cap]:
             pre = leg.get("preceding")
             ctx.cls(("act", meta["ini"].split("/")[-1], None if pre is None else meta["handlers"][pre][0], len(leg["created"]), len(leg["trashed"])))
